@@ -55,6 +55,21 @@ func storeConfig() storage.IndexedStoreConfig {
 			return x.A, nil
 		},
 	})
+	// unique secondary index: an optional alias, empty for (id "a", a "x"), distinct otherwise
+	c.Indexes = append(c.Indexes, storage.Index{
+		Name:   "u",
+		Unique: true,
+		ValueFunc: func(o storage.BinaryObject) (string, error) {
+			x, ok := o.(*obj)
+			if !ok {
+				return "", storage.ImpossibleTypeErr(x, o)
+			}
+			if x.ID == "a" && x.A == "x" {
+				return "", nil
+			}
+			return x.ID + x.A, nil
+		},
+	})
 	return c
 }
 
@@ -188,6 +203,101 @@ type op struct {
 
 func (o op) String() string { return o.Kind + "(" + o.ID + "," + o.A + ")" }
 
+var errAbort = errors.New("deliberate abort of the transaction")
+
+func resOf(err error) string {
+	switch {
+	case err == nil:
+		return "ok"
+	case err == storage.ErrObjectExists:
+		return "exists"
+	case err == storage.ErrNoObjectExists:
+		return "noexist"
+	case err == errAbort:
+		return "abort"
+	default:
+		return "err"
+	}
+}
+
+// applyTx: one operation inside an open read/write transaction.
+func (e *env) applyTx(tx storage.Tx, o op, v int) error {
+	switch o.Kind {
+	case "Create":
+		return e.is.CreateTx(tx, &obj{o.ID, o.A, v})
+	case "Put":
+		return e.is.PutTx(tx, &obj{o.ID, o.A, v})
+	case "Replace":
+		return e.is.ReplaceTx(tx, &obj{o.ID, o.A, v})
+	case "Delete":
+		return e.is.DeleteTx(tx, o.ID)
+	case "Rebuild":
+		return e.is.RebuildTx(tx)
+	}
+	rt.Fatalf("unknown op %q", o.Kind)
+	return nil
+}
+
+// runTx: store.Update grouping several operations; after each successful one GetTx of
+// every ID and ListTx over the in-transaction grid are observed INSIDE the transaction.
+// The function returns the first operation error (rollback), errAbort if abort is set
+// (rollback), nil otherwise (commit).  Emits TxBegin and TxOp lines; the caller emits TxEnd.
+func (e *env) runTx(t *rt.Trace, ids []string, ops []op, vbase, pre, failAt int, abort bool) string {
+	t.Event("TxBegin", rt.M{"pre": pre, "failAt": failAt, "n": len(ops)})
+	err := e.is.Store().Update(func(tx storage.Tx) error {
+		for i, o := range ops {
+			err := e.applyTx(tx, o, vbase+i)
+			ev := rt.M{"op": o.Kind, "id": o.ID, "a": o.A, "v": vbase + i, "res": resOf(err), "fired": e.fs != nil && e.fs.fired}
+			if err == nil {
+				ev["get"] = e.getTx(tx, ids)
+				ev["lists"] = e.listsTx(tx, txGrid)
+			}
+			t.Event("TxOp", ev)
+			if err != nil {
+				return err
+			}
+		}
+		if abort {
+			return errAbort
+		}
+		return nil
+	})
+	return resOf(err)
+}
+
+func (e *env) getTx(tx storage.Tx, ids []string) []any {
+	out := make([]any, len(ids))
+	for i, id := range ids {
+		o, err := e.is.GetTx(tx, id)
+		switch {
+		case err == storage.ErrNoObjectExists:
+			out[i] = [][]any{}
+		case err != nil:
+			out[i] = errM(err)
+		default:
+			out[i] = [][]any{objM(o)}
+		}
+	}
+	return out
+}
+
+func (e *env) listsTx(tx storage.Tx, qs []query) []any {
+	out := make([]any, len(qs))
+	for i, q := range qs {
+		objs, err := e.is.ListTx(tx, q.Idx, q.Pat, q.Off, q.Lim)
+		if err != nil {
+			out[i] = errM(err)
+			continue
+		}
+		l := make([][]any, len(objs))
+		for j, o := range objs {
+			l[j] = objM(o)
+		}
+		out[i] = l
+	}
+	return out
+}
+
 func (e *env) apply(o op, v int) string {
 	var err error
 	switch o.Kind {
@@ -318,7 +428,7 @@ func (e *env) dump() ([][]any, string) {
 
 // ---- alphabets ----
 
-var allIDs = []string{".", "..", "a", "ab", "b"}
+var allIDs = []string{"", ".", "..", "a", "ab", "b"}
 var vals = []string{"x", "y"}
 var patterns = []string{"a*", "*b", "?", "*", "a", "ab", ".*", "??"}
 
@@ -341,16 +451,21 @@ func globTable() rt.M {
 // basicGrid is observed after every operation; it contains limit<0 queries with
 // a pattern and with an offset, and paginated forward/reverse queries.
 var basicGrid = []query{
-	{"id", "", 0, -1, false}, {"a", "", 0, -1, false}, {"id", "", 0, -1, true}, {"a", "", 0, -1, true},
+	{"id", "", 0, -1, false}, {"a", "", 0, -1, false}, {"u", "", 0, -1, false}, {"id", "", 0, -1, true}, {"a", "", 0, -1, true},
 	{"id", "a*", 0, -1, false}, {"a", "", 1, -1, false}, {"id", "*b", 1, 1, false}, {"a", "?", 0, 2, true},
-	{"id", "", 1, 2, true},
+	{"u", "*", 1, 2, true}, {"id", "a", 1, 2, false},
+}
+
+// txGrid is observed with ListTx inside multi-operation transactions (there is no ReverseListTx for a storage.Tx).
+var txGrid = []query{
+	{"id", "", 0, -1, false}, {"a", "", 0, -1, false}, {"u", "", 0, -1, false}, {"id", "a*", 1, -1, false}, {"a", "", 1, 2, false},
 }
 
 // fullGrid is observed the first time a raw store content is seen (per unit).
 func fullGrid() []query {
 	var g []query
-	for _, idx := range []string{"id", "a"} {
-		for _, pat := range []string{"", "a*", "*b", "?", ".*", "??", "ab"} {
+	for _, idx := range []string{"id", "a", "u"} {
+		for _, pat := range []string{"", "a*", "*b", "?", "*", "??", "ab"} {
 			for _, off := range []int{0, 1, 2, 3} {
 				for _, lim := range []int{-1, 0, 1, 2, 100} {
 					for _, rev := range []bool{false, true} {
